@@ -66,6 +66,31 @@ fn mixed_dur(rng: &mut Rng) -> Vec<i128> {
     if rng.chance(1, 6) { f[9] = sign * *rng.pick(&[1i128, 43_200_000_000_000, 43_199_999_999_999, 43_200_000_000_001, 999]); }
     f
 }
+/// time fields long enough for their nanosecond value to pass 2^53, 2^62 and 2^63 (a length given in one field must
+/// behave like the same length given in balanced fields), with the target date mostly still in range
+fn long_time_dur(rng: &mut Rng) -> Vec<i128> {
+    const UNIT_NS: [i128; 6] = [3_600_000_000_000, 60_000_000_000, 1_000_000_000, 1_000_000, 1_000, 1];
+    const MAXNS: i128 = (1i128 << 53) * 1_000_000_000;
+    let mut f = vec![0i128; 10];
+    let sign = if rng.chance(1, 2) { 1 } else { -1 };
+    for _ in 0..rng.range(1, 2) {
+        let k = rng.range(0, 5) as usize;
+        let u = UNIT_NS[k];
+        let cap = (8_000_000_000_000_000_000_000i128 / u).min(MAXNS / u);
+        let v = match rng.below(6) {
+            0 => rng.range(0, cap),
+            1 => (1i128 << 62) / u + rng.range(0, 5),
+            2 => (1i128 << 63) / u + rng.range(0, 5),
+            3 => (1i128 << 53) / u.min(1 << 20) + rng.range(0, 5),
+            4 => 2 * rng.range(0, cap / 2000) + 1,
+            _ => cap / rng.range(1, 1000),
+        };
+        f[4 + k] = sign * f64_int(v.min(cap));
+    }
+    if rng.chance(1, 3) { f[1] = sign * rng.range(0, 14); }
+    if rng.chance(1, 3) { f[3] = sign * rng.range(0, 40); }
+    f
+}
 fn js(f: &[i128]) -> String { f.iter().map(|x| x.to_string()).collect::<Vec<_>>().join(" ") }
 
 const UOPT: [&str; 12] = ["-", "auto", "nanosecond", "microsecond", "millisecond", "second", "minute", "hour", "day", "week", "month", "year"];
@@ -83,8 +108,61 @@ fn opts(rng: &mut Rng, units: &[&str]) -> String {
 pub fn generate(rng: &mut Rng, thorough: bool) -> Vec<String> {
     let mut v = Vec::new();
     let n = if thorough { 300_000 } else { 40_000 };
+    // time parts of 2^31 / 2^32 days and around the longest representable distance (200 000 002 days): the whole
+    // days carried out of the time part must not wrap
+    for days in [1i128 << 31, (1 << 31) - 1, 1 << 32, (1 << 32) + 1, (1 << 32) - 1, 3 << 31, 200_000_002, 200_000_003, 200_000_001, 100_000_001, 5 << 32] {
+        for sign in [1i128, -1] {
+            for (idx, per_day) in [(4usize, 24i128), (5, 1440), (6, 86_400)] {
+                let mut f = vec![0i128; 10];
+                f[idx] = sign * days * per_day;
+                for rel in ["2020 1 1", "1970 1 1", "-271821 4 19", "275760 9 13", "0 3 1"] {
+                    v.push(format!("du_round_rel {} day - - - {rel}", js(&f)));
+                    v.push(format!("du_round_rel {} year day - - {rel}", js(&f)));
+                    v.push(format!("du_total_rel {} day {rel}", js(&f)));
+                    v.push(format!("du_total_rel {} hour {rel}", js(&f)));
+                    f[idx] += sign;
+                    v.push(format!("du_round_rel {} day hour - - {rel}", js(&f)));
+                    f[idx] -= sign;
+                }
+            }
+        }
+    }
+    // destinations in the first and the last day of the date-time range (valid date-times that are not valid
+    // instants): durations relative to the neighbouring dates, and rounded differences ending there
+    for (rel, sign) in [("275760 9 12", 1i128), ("275760 9 11", 1), ("275760 9 13", 1), ("-271821 4 21", -1), ("-271821 4 20", -1), ("-271821 4 22", -1)] {
+        for h in [1i128, 12, 23, 24, 25, 36, 47, 48, 49, 60, 71, 72] {
+            let mut f = vec![0i128; 10];
+            f[4] = sign * h;
+            f[5] = sign * 29;
+            for o in ["day minute - -", "day hour - halfExpand", "- hour 2 ceil", "day day - trunc", "week day - -", "month day - floor", "hour hour - -"] {
+                v.push(format!("du_round_rel {} {o} {rel}", js(&f)));
+            }
+            for u in ["day", "hour", "week", "month", "nanosecond"] {
+                v.push(format!("du_total_rel {} {u} {rel}", js(&f)));
+            }
+        }
+    }
+    for (y2, m2, d2, t2) in [(275760, 9, 13, "0 0 0 0 0 1"), (275760, 9, 13, "12 0 0 0 0 0"), (275760, 9, 13, "23 59 59 999 999 999"), (275760, 9, 13, "0 0 0 0 0 0"),
+        (-271821, 4, 19, "0 0 0 0 0 1"), (-271821, 4, 19, "12 0 0 0 0 0"), (-271821, 4, 19, "23 59 59 999 999 999"), (-271821, 4, 20, "0 0 0 0 0 0")] {
+        for (y1, m1, d1) in [(2020, 1, 1), (275760, 9, 12), (275760, 8, 31), (-271821, 4, 21), (-271821, 5, 31), (0, 1, 1)] {
+            for o in ["- hour - -", "- minute 30 halfExpand", "day hour - ceil", "- day - -", "day day 2 floor", "week week - -", "month month - trunc", "year day - halfEven", "hour second - -"] {
+                v.push(format!("pdt_until {y1} {m1} {d1} 6 0 0 0 0 0 {y2} {m2} {d2} {t2} {o}"));
+                v.push(format!("pdt_since {y1} {m1} {d1} 6 0 0 0 0 0 {y2} {m2} {d2} {t2} {o}"));
+                v.push(format!("pdt_until {y2} {m2} {d2} {t2} {y1} {m1} {d1} 6 0 0 0 0 0 {o}"));
+            }
+        }
+    }
+    for (y2, m2, d2) in [(-271821, 4, 19), (-271821, 4, 20), (275760, 9, 13), (275760, 9, 12)] {
+        for (y1, m1, d1) in [(2020, 1, 1), (-271821, 4, 21), (-271821, 5, 19), (275760, 9, 1), (275760, 8, 13)] {
+            for o in ["- day 2 -", "- day 7 ceil", "- week - -", "week week 2 floor", "month month - -", "month day 3 halfExpand", "year year - -", "year month - trunc"] {
+                v.push(format!("pd_until {y1} {m1} {d1} {y2} {m2} {d2} {o}"));
+                v.push(format!("pd_since {y1} {m1} {d1} {y2} {m2} {d2} {o}"));
+                v.push(format!("pd_until {y2} {m2} {d2} {y1} {m1} {d1} {o}"));
+            }
+        }
+    }
     for k in 0..n {
-        let d = mixed_dur(rng);
+        let d = if k % 8 == 7 { long_time_dur(rng) } else { mixed_dur(rng) };
         let rel = ref_date(rng);
         v.push(format!("du_round_rel {} {} {rel}", js(&d), opts(rng, &UOPT)));
         if k % 3 == 0 {
